@@ -17,7 +17,7 @@
 From Coq Require Import List Arith Lia ZArith Bool QArith Qcanon.
 Import ListNotations.
 From PGV Require Import BasisCoxDeBoor FindSpan CubicUniform Sums SplineModel SplineTheory SplineQc
-  AdvCommon FluxAdv VParAdv ParGrad AdvQc.
+  InterpModel InterpTheory AdvCommon FluxAdv VParAdv ParGrad AdvInterp AdvQc.
 
 (** the property's first sentence: step returns, at (theta_k, z_i), sum_j c_j * S_{(i+s_j) mod nz}(wrap(theta_k + thetaShift_j)); in particular it does not raise and reads no unwritten cell of [vals] *)
 Theorem c10_step_formula :
@@ -190,6 +190,88 @@ Theorem c10_ev_const_nu :
 Proof. exact adv_ev_const_nu. Qed.
 Print Assumptions c10_ev_const_nu.
 
+(* ---- interpolate-then-operate: composed with C08 (AdvInterp.v) ---- *)
+
+(** compute_interpolant (C08: ip_interp1d) on a constant field on every z plane, then the flux step: the constant, for any twist and any displacement. No hypothesis on spline values is left: [ai_space] = the space is regular (sorted knots with non-empty end cells, or xmin <= 0, 2pi <= xmax = xmin + ncells*dx, dx > 0) so that evaluation does not raise on [0, 2pi]; the inverse certificate and the unit row sums are C08's (c08_inverse_spec, c08_rows_sum_one_cubic / _nu); sum of the Lagrange coefficients: c10_lagrange_sum_one *)
+Theorem c10_interp_then_step_constants :
+  forall (F : Type) (K : sp_ops F),
+  sp_laws K ->
+  forall (cu : bool) (knots : list F) (deg : nat) (pi : F) (nz : nat) (qVals : list F)
+  (us cs A Ainv : list (list F)) (kappa : F) (shifts : list Z) (tss lc : list F),
+  let nb := ip_nbasis F K knots deg true cu in
+  let twopi := spmul K (sp_two F K) pi in
+  adv_trunc_ok F K ->
+  sp_lt K (sp0 K) twopi ->
+  ai_space F K cu knots deg (sp0 K) twopi ->
+  (0 < nz)%nat ->
+  length us = nz ->
+  length cs = nz ->
+  ip_colloc F K nb knots deg true cu qVals = SpOk A ->
+  ip_inverse_ok F K nb A Ainv = true ->
+  ip_rows_sum_one F K nb A ->
+  (forall m : nat, (m < nz)%nat -> ip_interp1d F K knots deg true cu qVals (nth m us []) = SpOk (nth m cs [])) ->
+  (forall m i : nat, (m < nz)%nat -> (i < nb)%nat -> nth i (nth m us []) (sp0 K) = kappa) ->
+  length tss = length shifts ->
+  length lc = length shifts ->
+  (0 < length shifts)%nat ->
+  adv_sum F K (length lc) (fun j : nat => nth j lc (sp0 K)) = sp1 K ->
+  fx_step F K (adv_ev F K cu knots deg) pi nz qVals cs shifts tss lc =
+  SpOk (map (fun _ : nat => map (fun _ : nat => kappa) (seq 0 nz)) (seq 0 (length qVals))).
+Proof. exact ai_fx_interp_then_step_constants. Qed.
+Print Assumptions c10_interp_then_step_constants.
+
+(** compute_interpolant on arbitrary nodal data us[m][k] = f(theta_k, z_m), displacement a whole number of cells (foot = stencil node j0), no twist: the flux step returns exactly the circular shift f(theta_k, z_{(i+s_j0) mod nz}) of the nodal data (C08 c08_interp1d_exact composed with c10_step_formula and c10_lagrange_on_node) *)
+Theorem c10_interp_then_integer_shift :
+  forall (F : Type) (K : sp_ops F),
+  sp_laws K ->
+  forall (cu : bool) (knots : list F) (deg : nat) (pi : F) (nz : nat) (qVals : list F)
+  (us cs : list (list F)) (shifts : list Z) (tss zPts : list F) (j0 : nat),
+  let nb := ip_nbasis F K knots deg true cu in
+  let twopi := spmul K (sp_two F K) pi in
+  adv_trunc_ok F K ->
+  sp_lt K (sp0 K) twopi ->
+  (0 < nz)%nat ->
+  length us = nz ->
+  length cs = nz ->
+  length qVals = nb ->
+  (forall k : nat, (k < nb)%nat -> sp_le K (sp0 K) (nth k qVals (sp0 K)) /\ sp_lt K (nth k qVals (sp0 K)) twopi) ->
+  ip_spans_in_range F K knots deg true cu qVals ->
+  (forall m : nat, (m < nz)%nat -> ip_interp1d F K knots deg true cu qVals (nth m us []) = SpOk (nth m cs [])) ->
+  length tss = length shifts ->
+  (forall j : nat, (j < length shifts)%nat -> nth j tss (sp0 K) = sp0 K) ->
+  length zPts = length shifts ->
+  (j0 < length zPts)%nat ->
+  (forall j : nat, (j < length zPts)%nat -> j <> j0 -> nth j zPts (sp0 K) <> nth j0 zPts (sp0 K)) ->
+  fx_step F K (adv_ev F K cu knots deg) pi nz qVals cs shifts tss (fx_lag_coeffs F K zPts (nth j0 zPts (sp0 K))) =
+  SpOk
+  (map
+  (fun k : nat =>
+  map (fun i : nat => nth k (nth (fx_src nz i (nth j0 shifts 0%Z)) us []) (sp0 K)) (seq 0 nz))
+  (seq 0 (length qVals))).
+Proof. exact ai_fx_interp_then_integer_shift. Qed.
+Print Assumptions c10_interp_then_integer_shift.
+
+(** a spline with constant coefficients is that constant on every point of [lo, hi] (both evaluation paths, no success hypothesis) *)
+Theorem c10_const_spline :
+  forall (F : Type) (K : sp_ops F),
+  sp_laws K ->
+  forall (cu : bool) (knots : list F) (deg : nat) (lo hi : F) (c : list F) (kappa x : F),
+  ai_space F K cu knots deg lo hi ->
+  length c = ip_ncoeffs F K knots deg cu ->
+  (forall i : nat, (i < length c)%nat -> nth i c (sp0 K) = kappa) ->
+  sp_le K lo x -> sp_le K x hi -> adv_ev F K cu knots deg c x = SpOk kappa.
+Proof. exact ai_const_spline. Qed.
+Print Assumptions c10_const_spline.
+
+(** Python's % with a positive modulus lands in [0, m): the wrapped feet are in the theta domain *)
+Theorem c10_mod_range :
+  forall (F : Type) (K : sp_ops F),
+  sp_laws K ->
+  forall x m : F,
+  adv_trunc_ok F K -> sp_lt K (sp0 K) m -> sp_le K (sp0 K) (adv_mod F K x m) /\ sp_lt K (adv_mod F K x m) m.
+Proof. exact ai_mod_range. Qed.
+Print Assumptions c10_mod_range.
+
 (** the executed instance satisfies the hypotheses [sp_laws] and [adv_trunc_ok] *)
 Theorem c10_qc_instance : sp_laws spq_ops /\ adv_trunc_ok Qc spq_ops.
 Proof. exact (conj spq_laws advq_trunc_ok). Qed.
@@ -229,3 +311,26 @@ Example c10_ex_on_node :
   | SpOk (sh, tss, lc) => sh = [-5; -4; -3; -2; -1; 0]%Z /\ map spq_show lc = map spq_show [Q2Qc 0; Q2Qc 0; Q2Qc 1; Q2Qc 0; Q2Qc 0; Q2Qc 0]
   | _ => False end.
 Proof. vm_compute. repeat split. Qed.
+
+(* ---- non-vacuity of the interpolate-then-step theorems: uniform cubic, 4 theta cells, nz = 7 ---- *)
+Definition c10_ex_us : list (list Qc) :=
+  map (fun m => map (fun t => spq_of (Z.of_nat ((m * 3 + t * 5) mod 11)) 2) [0; 1; 2; 3]%nat) (seq 0 7).
+Definition c10_ex_ics : list (list Qc) :=
+  map (fun u => match ip_interp1d Qc spq_ops c10_ex_knots 3 true true c10_ex_q u with SpOk c => c | _ => [] end) c10_ex_us.
+Example c10_ex_interp_then_integer_shift :
+  (* the interpolations succeed; foot on the node with shift -3 (zDist = -3 dz), no twist *)
+  forallb (fun u => match ip_interp1d Qc spq_ops c10_ex_knots 3 true true c10_ex_q u with SpOk _ => true | _ => false end) c10_ex_us = true
+  /\ match fxq_get_lagrange_pts 6 (spq_of 1 2) (spq_of 0 1) (spq_of (-3) 2) (spq_of 1 2) with
+     | SpOk (sh, tss, lc) =>
+         advq_show_rows (fxq_step c10_ex_pi 7 c10_ex_q c10_ex_ics sh tss lc c10_ex_knots 3 true)
+         = advq_show_rows (SpOk (map (fun k => map (fun i => nth k (nth (fx_src 7 i (-3)) c10_ex_us []) (Q2Qc 0)) (seq 0 7)) (seq 0 4)))
+     | _ => False end.
+Proof. vm_compute. split; reflexivity. Qed.
+Example c10_ex_interp_then_constants :
+  (* constant field 5/3, twist and a 2.6-cell negative displacement (c10_ex_pts) *)
+  match c10_ex_pts, ip_interp1d Qc spq_ops c10_ex_knots 3 true true c10_ex_q [spq_of 5 3; spq_of 5 3; spq_of 5 3; spq_of 5 3] with
+  | SpOk (sh, tss, lc), SpOk c =>
+      advq_show_rows (fxq_step c10_ex_pi 7 c10_ex_q [c; c; c; c; c; c; c] sh tss lc c10_ex_knots 3 true)
+      = advq_show_rows (SpOk (map (fun _ => map (fun _ => spq_of 5 3) (seq 0 7)) (seq 0 4)))
+  | _, _ => False end.
+Proof. vm_compute. reflexivity. Qed.
